@@ -60,6 +60,23 @@ func buildValue(v interface{}) interface{} {
 		rv.Elem().Set(reflect.ValueOf(out))
 		return rv.Interface()
 	}
+	// layers of pointers and interfaces around the value: "pi" = *interface{}, "pip" = *interface{} holding a pointer,
+	// "pipi" = pointer, interface, pointer, interface
+	if w, _ := j["wrap"].(string); w != "" && out != nil {
+		cur := out
+		for i := len(w) - 1; i >= 0; i-- {
+			if w[i] == 'i' {
+				var x interface{} = cur
+				cur = &x // *interface{}: the pointer layer comes with it
+				i--      // "pi" consumed together
+			} else {
+				rv := reflect.New(reflect.TypeOf(cur))
+				rv.Elem().Set(reflect.ValueOf(cur))
+				cur = rv.Interface()
+			}
+		}
+		return cur
+	}
 	return out
 }
 
